@@ -425,8 +425,8 @@ impl Prop for C01 {
         match (tier, cfg!(debug_assertions)) {
             (Tier::Quick, true) => 400_000,
             (Tier::Quick, false) => 400_000,
-            (Tier::Thorough, true) => 12_000_000,
-            (Tier::Thorough, false) => 12_000_000,
+            (Tier::Thorough, true) => 60_000_000,
+            (Tier::Thorough, false) => 60_000_000,
         }
     }
     fn gen(&self, rng: &mut Rng, _tier: Tier) -> ParseCase {
@@ -528,10 +528,10 @@ impl Prop for C04 {
     }
     fn runs(&self, tier: Tier) -> u64 {
         match (tier, cfg!(debug_assertions)) {
-            (Tier::Quick, true) => 8_000,
-            (Tier::Quick, false) => 8_000,
-            (Tier::Thorough, true) => 400_000,
-            (Tier::Thorough, false) => 400_000,
+            (Tier::Quick, true) => 20_000,
+            (Tier::Quick, false) => 20_000,
+            (Tier::Thorough, true) => 2_000_000,
+            (Tier::Thorough, false) => 2_000_000,
         }
     }
     fn gen(&self, rng: &mut Rng, _tier: Tier) -> ParseCase {
